@@ -239,6 +239,7 @@ def _hypothesis_search(prop: Prop, tier: str, seed: int, n_examples: int, stats:
     if strat is None or n_examples <= 0:
         return
     state = {'best': None, 'best_digest': None, 'best_out': None, 'deadline': None}
+    failed: dict = {}
     budget = prop.shrink_budget_s[tier]
     try:  # Hypothesis' shrinker has a hard 5 min cap; lower it to this tier's budget
         import hypothesis.internal.conjecture.engine as _eng
@@ -261,13 +262,19 @@ def _hypothesis_search(prop: Prop, tier: str, seed: int, n_examples: int, stats:
     def test(case):
         shrinking = state['best'] is not None
         d = digest(case)
-        if shrinking and time.time() > state['deadline'] and d != state['best_digest']:
-            return  # shrink budget exhausted: only the best-known failing case still fails
+        if shrinking and time.time() > state['deadline']:
+            # shrink budget exhausted: answer from the cache of outcomes already observed (keeps Hypothesis' final
+            # replay of its minimal example consistent), treat anything not yet seen as passing
+            if d in failed:
+                state['best'], state['best_digest'], state['best_out'] = case, d, failed[d]
+                raise _Violation(failed[d].msg)
+            return
         bad = _run_one(prop, case, stats if not shrinking else Stats(), 'gen', open_keys)
         if bad is None:
             return
         if state['deadline'] is None:
             state['deadline'] = time.time() + budget
+        failed[d] = bad
         state['best'], state['best_digest'], state['best_out'] = case, d, bad
         raise _Violation(bad.msg)
 
